@@ -18,7 +18,9 @@
 From Coq Require Import ZArith List Bool Sorting.Sorted.
 From ScV Require Import Base.CInt C15.RangesModel C15.RangesGaps C15.RangesInvert C15.RangesCompute C15.RangesDecode
   C15.RangesAdaptive C15.RangesProps.
-From ScV Require Import Gen.RangesC15 C15.RangesGen.
+From ScV Require Import Gen.RangesC15 C15.RangesGen C15.RangesGenLoops.
+From ScV Require Import MPI.Prog MPI.Sem MPI.SemAny MPI.SemColl C15.RangesSelect C15.RangesOrder C15.RangesAnyKept C15.RangesProg.
+From Coq Require Import Permutation.
 Import ListNotations.
 Local Open Scope Z_scope.
 
@@ -348,3 +350,290 @@ Print Assumptions C15_gen_row_has.
 Theorem C15_gen_senders : forall tbl rank, senders tbl rank = filter (fun j => negb (decode_send_self j rank) && row_has_gen (row_of tbl j) rank j) (zseq (length tbl)).
 Proof. exact gen_senders. Qed.
 Print Assumptions C15_gen_senders.
+
+(* ===== sc_ranges_adaptive as a per-rank program over the collective contracts (C15/RangesProg.v) ============================ *)
+(* P = |vecs| programs adaptive_prog (Coll ALLREDUCE_MAX [peer count; nwin]; Coll ALLGATHER (first 2 * maxwin ints of the own array);
+   return [nwin; maxpeers; maxwin] ++ own array ++ table) under the interleaving semantics with synchronising collectives
+   (MPI/SemColl.v, contract coll_reply): EVERY run has exactly 2 steps, is never stuck, leaves no message, and ends with every rank r
+   holding adaptive_result vecs nr r, read off adaptive_all - so adaptive_all (about which the theorems above speak) IS what the
+   programs compute: the collective specifications it builds in are discharged against the contract of the semantics. *)
+Theorem C15_adaptive_every_schedule : forall vecs nr, vecs <> [] ->
+  every_schedule (Z.of_nat (length vecs)) coll_reply (adaptive_sys vecs nr) 2
+    (fun s => (forall r, (r < length vecs)%nat -> pr s (Z.of_nat r) = Ret (adaptive_result vecs nr r)) /\ (forall a b t, ch s a b t = [])).
+Proof. exact adaptive_every_schedule. Qed.
+Print Assumptions C15_adaptive_every_schedule.
+
+(* the result of rank r: its own return value, the two maxima, its own array of num_ranges pairs, then the table =
+   the first maxwin ranges of rank 0, of rank 1, ... in rank order (2 * maxwin * P ints) *)
+Theorem C15_adaptive_result_layout : forall vecs nr r, 1 <= nr -> (forall v, In v vecs -> length v = length vecs) -> (r < length vecs)%nat ->
+  let res := adaptive_all vecs nr in
+  let maxwin := snd (fst res) in
+  adaptive_result vecs nr r =
+    [nranges (nth r vecs []) (Z.of_nat r) nr; snd (fst (fst res)); maxwin]
+    ++ flatten_pairs (ranges_array (nth r vecs []) (Z.of_nat r) nr)
+    ++ concat (map (fun q => flatten_pairs (firstn (Z.to_nat maxwin) (ranges_array (nth q vecs []) (Z.of_nat q) nr))) (seq 0 (length vecs)))
+  /\ length (flatten_pairs (ranges_array (nth r vecs []) (Z.of_nat r) nr)) = (2 * Z.to_nat nr)%nat
+  /\ length (concat (map flatten_pairs (snd res))) = (2 * Z.to_nat maxwin * length vecs)%nat.
+Proof. exact adaptive_result_layout. Qed.
+Print Assumptions C15_adaptive_result_layout.
+
+(* the maxima (entries 1, 2 of the result) are the same on all ranks (the table behind the own array is the same by the layout above) *)
+Theorem C15_adaptive_result_shared : forall vecs nr r r',
+  firstn 2 (skipn 1 (adaptive_result vecs nr r)) = firstn 2 (skipn 1 (adaptive_result vecs nr r')).
+Proof. exact adaptive_result_shared. Qed.
+Print Assumptions C15_adaptive_result_shared.
+
+(* one concrete run with the executable scheduler of SemColl.v (the two collectives fire), P = 4 *)
+Example C15_ex_prog :
+  let vecs := [[0; 1; 0; 1]; [1; 0; 0; 0]; [0; 0; 0; 0]; [1; 1; 0; 0]] in
+  option_map (fun s => (pr s 0, pr s 3)) (exec_c 4 coll_reply [CC; CC] (adaptive_sys vecs 2))
+  = Some (Ret [2; 2; 2; 1; 1; 3; 3;  1; 1; 3; 3; 0; 0; -1; -2; -1; -2; -1; -2; 0; 1; -1; -2],
+          Ret [1; 2; 2; 0; 1; -1; -2;  1; 1; 3; 3; 0; 0; -1; -2; -1; -2; -1; -2; 0; 1; -1; -2]).
+Proof. vm_compute. reflexivity. Qed.
+
+(* ===== the eviction keeps the num_ranges - 1 longest gaps WHATEVER the order of evictions (C15/RangesOrder.v) ================= *)
+(* sel_step m kept g kept': a slot is free (|kept| < m): g is added; else SOME slot of minimal length among kept ++ [g] is dropped;
+   in both cases the slots may be permuted arbitrarily.  sel_run = any sequence of such steps over the gaps in the order of arrival.
+   top_sel m G kept: kept is a duplicate-free part of G with min (|G|, m) elements and no dropped gap is longer than a kept one. *)
+Theorem C15_evict_any_order_top : forall m G kept, NoDup G -> sel_run m [] G kept -> top_sel m G kept.
+Proof. exact sel_run_top. Qed.
+Print Assumptions C15_evict_any_order_top.
+
+(* the step of the code (claim the first unused slot, evict the first shortest, move the last slot into the hole) is one of them *)
+Theorem C15_evict_code_is_instance : forall (P : Z) (m : nat) kept g, (length kept <= m)%nat ->
+  Forall (fun x => glen x <= P) (kept ++ [g]) -> sel_step m kept g (add_gap P (Z.of_nat m + 1) kept g).
+Proof. exact add_gap_is_sel_step. Qed.
+Print Assumptions C15_evict_code_is_instance.
+
+Theorem C15_evict_kept_gaps_run : forall procs rank nr, 1 <= nr ->
+  sel_run (Z.to_nat (nr - 1)) [] (gaps_of (peers procs rank)) (kept_gaps procs rank nr).
+Proof. exact kept_gaps_is_sel_run. Qed.
+Print Assumptions C15_evict_kept_gaps_run.
+
+Theorem C15_evict_kept_gaps_top : forall procs rank nr, 1 <= nr ->
+  top_sel (Z.to_nat (nr - 1)) (gaps_of (peers procs rank)) (kept_gaps procs rank nr).
+Proof. exact kept_gaps_top_sel. Qed.
+Print Assumptions C15_evict_kept_gaps_top.
+
+(* which LENGTHS survive is determined completely (as a multiset) ... *)
+Theorem C15_evict_lengths_unique : forall m G k1 k2, top_sel m G k1 -> top_sel m G k2 -> Permutation (map glen k1) (map glen k2).
+Proof. exact top_sel_lengths_unique. Qed.
+Print Assumptions C15_evict_lengths_unique.
+
+(* ... which GAPS survive is determined when no two gaps are equally long (else only up to the choice among equally long ones) *)
+Theorem C15_evict_unique_without_ties : forall m G k1 k2, NoDup (map glen G) -> top_sel m G k1 -> top_sel m G k2 -> Permutation k1 k2.
+Proof. exact top_sel_unique_without_ties. Qed.
+Print Assumptions C15_evict_unique_without_ties.
+
+Theorem C15_evict_any_order_same_lengths : forall m G k1 k2, NoDup G -> sel_run m [] G k1 -> sel_run m [] G k2 ->
+  Permutation (map glen k1) (map glen k2).
+Proof. exact any_order_same_lengths. Qed.
+Print Assumptions C15_evict_any_order_same_lengths.
+
+(* even the order in which the gaps ARRIVE does not matter for the lengths that survive *)
+Theorem C15_evict_any_arrival_order_same_lengths : forall m G G' k1 k2, NoDup G -> Permutation G G' ->
+  sel_run m [] G k1 -> sel_run m [] G' k2 -> Permutation (map glen k1) (map glen k2).
+Proof. exact any_arrival_order_same_lengths. Qed.
+Print Assumptions C15_evict_any_arrival_order_same_lengths.
+
+(* the threshold: a gap strictly longer than a kept one is kept; a gap strictly shorter than a dropped one is dropped *)
+Theorem C15_evict_longer_kept : forall m G kept a k, top_sel m G kept -> In a G -> In k kept -> glen k < glen a -> In a kept.
+Proof. exact top_sel_longer_kept. Qed.
+Print Assumptions C15_evict_longer_kept.
+
+Theorem C15_evict_shorter_dropped : forall m G kept a d, top_sel m G kept -> In a G -> In d G -> ~ In d kept -> glen a < glen d -> ~ In a kept.
+Proof. exact top_sel_shorter_dropped. Qed.
+Print Assumptions C15_evict_shorter_dropped.
+
+(* the final sort: ANY algorithm that returns a permutation ascending by the start (qsort with sc_ranges_compare; the starts of the
+   gaps are pairwise different) returns what the model's insertion sort returns *)
+Theorem C15_sort_unique : forall l l', Permutation l' l -> StronglySorted lt_start l' -> l' = isort l.
+Proof. exact sort_unique. Qed.
+Print Assumptions C15_sort_unique.
+
+Theorem C15_sort_perm_eq : forall k1 k2, Permutation k1 k2 -> NoDup (map fst k1) -> isort k1 = isort k2.
+Proof. exact isort_perm_eq. Qed.
+Print Assumptions C15_sort_perm_eq.
+
+(* the sorted slots are the kept gaps in their original (ascending) order *)
+Theorem C15_sort_kept_is_filter : forall G kept, StronglySorted lt_start G -> NoDup kept -> incl kept G ->
+  isort kept = filter (fun g => if in_dec pair_eq_dec g kept then true else false) G.
+Proof. exact isort_kept_is_filter. Qed.
+Print Assumptions C15_sort_kept_is_filter.
+
+(* so the ranges depend on WHICH gaps are kept only, not on the slots they sit in (the moves of the last slot into the hole) *)
+Theorem C15_ranges_independent_of_slot_order : forall k1 k2 first last, Permutation k1 k2 -> NoDup (map fst k1) ->
+  invert first last (isort k1) = invert first last (isort k2).
+Proof. exact ranges_independent_of_slot_order. Qed.
+Print Assumptions C15_ranges_independent_of_slot_order.
+
+Theorem C15_compute_sorted_is_filter : forall procs rank nr, 1 <= nr ->
+  isort (kept_gaps procs rank nr)
+  = filter (fun g => if in_dec pair_eq_dec g (kept_gaps procs rank nr) then true else false) (gaps_of (peers procs rank)).
+Proof. exact compute_sorted_is_filter. Qed.
+Print Assumptions C15_compute_sorted_is_filter.
+
+Theorem C15_compute_ranges_any_slot_order : forall procs rank nr k first last, 1 <= nr ->
+  Permutation k (kept_gaps procs rank nr) -> invert first last (isort k) = invert first last (isort (kept_gaps procs rank nr)).
+Proof. exact compute_ranges_any_slot_order. Qed.
+Print Assumptions C15_compute_ranges_any_slot_order.
+
+(* gaps of lengths 1, 3, 1, 4 and 3 slots: both choices among the two gaps of length 1 are reachable; the code makes the first one,
+   in another slot order; the tie-breaking is visible in the ranges, the slot order is not *)
+Example C15_ex_evict_orders :
+  gaps_of (peers ex_procs 1) = ex_gaps
+  /\ sel_run 3 [] ex_gaps [(3, 5); (7, 7); (9, 12)] /\ sel_run 3 [] ex_gaps [(1, 1); (3, 5); (9, 12)]
+  /\ kept_gaps ex_procs 1 4 = [(9, 12); (3, 5); (7, 7)].
+Proof. exact (conj ex_gaps_of (conj ex_run_first (conj ex_run_second ex_kept_gaps))). Qed.
+
+(* ===== decode for EVERY rank from the table of ANY choice of kept gaps (C15/RangesAnyKept.v) ================================== *)
+(* ranges_of procs rank K = invert first_peer last_peer (isort K) for ANY duplicate-free part K of the gaps between the peers
+   (sub_gaps): every eviction order, every tie-breaking, every budget; procs[rank] may be non-zero (it is never a peer).
+   table_of vecs Ks w: row r = ranges_of (vector of r) r (K of r), padded with (-1,-2) to w entries; good_family: |K_r| < w. *)
+Theorem C15_anykept_ranges_shape : forall procs rank K, sub_gaps procs rank K ->
+  StronglySorted sep (ranges_of procs rank K)
+  /\ (forall x, In x (ranges_of procs rank K) -> fst x <= snd x /\ In (fst x) (peers procs rank) /\ In (snd x) (peers procs rank))
+  /\ (forall p, In p (peers procs rank) -> exists x, In x (ranges_of procs rank K) /\ fst x <= p <= snd x)
+  /\ between (ranges_of procs rank K) = (match peers procs rank with [] => [] | _ => isort K end)
+  /\ (peers procs rank <> [] -> length (ranges_of procs rank K) = S (length K)).
+Proof. exact ranges_of_shape. Qed.
+Print Assumptions C15_anykept_ranges_shape.
+
+(* a range never begins or ends at the own rank, whatever procs[rank] is *)
+Theorem C15_anykept_rank_not_in_own_ends : forall procs rank K x, sub_gaps procs rank K -> In x (ranges_of procs rank K) ->
+  fst x <> rank /\ snd x <> rank.
+Proof. exact rank_not_in_own_ends. Qed.
+Print Assumptions C15_anykept_rank_not_in_own_ends.
+
+(* sc_ranges_compute is the instance K = kept_gaps *)
+Theorem C15_anykept_compute_instance : forall procs rank nr, 1 <= nr ->
+  sub_gaps procs rank (kept_gaps procs rank nr)
+  /\ (peers procs rank <> [] -> ranges_of procs rank (kept_gaps procs rank nr)
+      = firstn (Z.to_nat (fst (compute_call procs rank nr))) (snd (compute_call procs rank nr))).
+Proof. intros procs rank nr H; split; [exact (kept_gaps_sub_gaps procs rank nr H)|exact (ranges_of_kept_gaps procs rank nr H)]. Qed.
+Print Assumptions C15_anykept_compute_instance.
+
+Theorem C15_anykept_row_wf : forall procs rank K w, sub_gaps procs rank K ->
+  wf_row (Z.of_nat (length procs)) (-1) (row_of_kept procs rank K w).
+Proof. exact any_kept_row_wf. Qed.
+Print Assumptions C15_anykept_row_wf.
+
+Theorem C15_anykept_table_wf : forall vecs Ks w, good_family vecs Ks w ->
+  wf_table (table_of vecs Ks w) /\ length (table_of vecs Ks w) = length vecs.
+Proof. exact any_kept_table_wf. Qed.
+Print Assumptions C15_anykept_table_wf.
+
+Theorem C15_anykept_decode_symmetric : forall vecs Ks w p q, good_family vecs Ks w -> 0 <= p < Z.of_nat (length vecs) -> p <> q ->
+  (In q (receivers (table_of vecs Ks w) p) <-> In p (senders (table_of vecs Ks w) q)).
+Proof. exact any_kept_decode_symmetric. Qed.
+Print Assumptions C15_anykept_decode_symmetric.
+
+Theorem C15_anykept_self_excluded : forall vecs Ks w p, good_family vecs Ks w ->
+  ~ In p (receivers (table_of vecs Ks w) p) /\ ~ In p (senders (table_of vecs Ks w) p).
+Proof. exact any_kept_self_excluded. Qed.
+Print Assumptions C15_anykept_self_excluded.
+
+Theorem C15_anykept_peers_are_receivers : forall vecs Ks w p q, good_family vecs Ks w -> 0 <= p < Z.of_nat (length vecs) ->
+  In q (peers (nth (Z.to_nat p) vecs []) p) -> In q (receivers (table_of vecs Ks w) p).
+Proof. exact any_kept_peers_are_receivers. Qed.
+Print Assumptions C15_anykept_peers_are_receivers.
+
+(* receivers of p = the ranks inside p's ranges, senders of q = the ranks whose ranges contain q: both for EVERY rank *)
+Theorem C15_anykept_receivers_spec : forall vecs Ks w p q, good_family vecs Ks w -> 0 <= p < Z.of_nat (length vecs) ->
+  (In q (receivers (table_of vecs Ks w) p) <-> q <> p /\
+      exists x, In x (ranges_of (nth (Z.to_nat p) vecs []) p (nth (Z.to_nat p) Ks [])) /\ fst x <= q <= snd x).
+Proof. exact any_kept_receivers_spec. Qed.
+Print Assumptions C15_anykept_receivers_spec.
+
+Theorem C15_anykept_senders_spec : forall vecs Ks w p q, good_family vecs Ks w -> 0 <= q < Z.of_nat (length vecs) ->
+  (In p (senders (table_of vecs Ks w) q) <-> 0 <= p < Z.of_nat (length vecs) /\ p <> q /\
+      exists x, In x (ranges_of (nth (Z.to_nat p) vecs []) p (nth (Z.to_nat p) Ks [])) /\ fst x <= q <= snd x).
+Proof. exact any_kept_senders_spec. Qed.
+Print Assumptions C15_anykept_senders_spec.
+
+(* the table sc_ranges_adaptive gathers (width maxwin) decodes like the full-width table of the instance K_r = kept_gaps *)
+Theorem C15_anykept_adaptive_instance : forall vecs nr, 1 <= nr -> (forall v, In v vecs -> length v = length vecs) ->
+  let Ks := map (fun rv : Z * list Z => kept_gaps (snd rv) (fst rv) nr) (combine (zseq (length vecs)) vecs) in
+  good_family vecs Ks (Z.to_nat nr) /\
+  forall p, 0 <= p < Z.of_nat (length vecs) ->
+    receivers (snd (adaptive_all vecs nr)) p = receivers (table_of vecs Ks (Z.to_nat nr)) p
+    /\ senders (snd (adaptive_all vecs nr)) p = senders (table_of vecs Ks (Z.to_nat nr)) p.
+Proof. exact adaptive_is_any_kept. Qed.
+Print Assumptions C15_anykept_adaptive_instance.
+
+(* a family with procs[rank] <> 0 (rank 0), a rank without peers (rank 2) and kept gaps that are NOT the ones the code keeps *)
+Example C15_ex_anykept : good_family ex_vecs ex_Ks 2
+  /\ nth 0 ex_Ks [] <> kept_gaps (nth 0 ex_vecs []) 0 2 /\ nth 1 ex_Ks [] <> kept_gaps (nth 1 ex_vecs []) 1 2
+  /\ proc (nth 0 ex_vecs []) 0 = 1 /\ peers (nth 2 ex_vecs []) 2 = [].
+Proof. exact ex_good_family. Qed.
+
+(* ===== tie T1, loops and whole bodies (C15/RangesGenLoops.v): ranges[e] / procs[e] as memory reads ============================== *)
+(* mem_of l k = the k-th int of the array that holds the pairs l.  the loop that claims a slot stops at the first unused one *)
+Theorem C15_gen_claim_scan : forall slots nr prev j st fuel, (length slots < nr)%nat -> (nr < fuel)%nat -> Z.of_nat nr <= RB ->
+  Forall (fun g => fst g <> -1) slots ->
+  exists st', compute_claim_scan fuel (mem_of (slots ++ repeat compute_unused (nr - length slots))) (Z.of_nat nr) prev j st
+              = Some (Z.of_nat (length slots), st').
+Proof. exact gen_claim_scan. Qed.
+Print Assumptions C15_gen_claim_scan.
+
+(* the WHOLE scan for the shortest slot (start values, bounds 0 .. num_ranges - 1, strict comparison) = the model's `shortest` *)
+Theorem C15_gen_evict_scan : forall l lastw np len0 fuel, (length l < fuel)%nat -> Z.of_nat (length l) <= RB -> ok_z np -> Forall ok_pair l ->
+  exists bl, compute_evict_scan fuel (mem_of l) lastw np (Z.of_nat (length l)) len0 = Some (lastw, shortest np l, bl).
+Proof. exact gen_evict_scan. Qed.
+Print Assumptions C15_gen_evict_scan.
+
+(* qsort (ranges, nwin, 2 * sizeof (int), sc_ranges_compare) is called on every path between the walk and the inversion *)
+Theorem C15_gen_sort : forall ranges nwin, 0 <= nwin <= RB -> compute_sort ranges nwin = (1, ranges, nwin, 8).
+Proof. exact gen_sort. Qed.
+Print Assumptions C15_gen_sort.
+
+Theorem C15_gen_compare : forall a b, ok_z a -> ok_z b -> ranges_compare a b = a - b.
+Proof. exact gen_compare. Qed.
+Print Assumptions C15_gen_compare.
+
+Theorem C15_gen_compare_sign : forall a b, ok_z a -> ok_z b ->
+  (ranges_compare a b <? 0) = (a <? b) /\ (ranges_compare a b =? 0) = (a =? b) /\ (0 <? ranges_compare a b) = (b <? a).
+Proof. exact gen_compare_sign. Qed.
+Print Assumptions C15_gen_compare_sign.
+
+(* the model's insertion by the start, written with the generated comparator *)
+Theorem C15_gen_insert_by_start : forall g l, ok_pair g -> Forall ok_pair l -> insert_by_start g l = insert_gen g l.
+Proof. exact gen_insert_by_start. Qed.
+Print Assumptions C15_gen_insert_by_start.
+
+(* the loop of sc_ranges_adaptive that counts the peers = the model's peer_count (procs[j] > 0 && j != rank) *)
+Theorem C15_gen_peer_count : forall procs rank fuel, (length procs < fuel)%nat -> Z.of_nat (length procs) <= RB ->
+  adaptive_body_loop1 fuel (proc procs) (Z.of_nat (length procs)) rank 0 0 = Some (inl (Z.of_nat (length procs), peer_count procs rank)).
+Proof. exact gen_peer_count. Qed.
+Print Assumptions C15_gen_peer_count.
+
+(* the WHOLE body of sc_ranges_adaptive, for every value of every input *)
+Theorem C15_gen_adaptive_body : forall procs fuel comm szret rkret io1 io2 rank loc1 grd pkg nr ranges cret INT MAX arret g0 g1 gr scpkg mret agret,
+  (length procs < fuel)%nat -> Z.of_nat (length procs) <= RB -> 0 <= g1 <= RB -> 2 * g1 * Z.of_nat (length procs) <= RB ->
+  let P := Z.of_nat (length procs) in
+  adaptive_body fuel (proc procs) comm szret rkret io1 io2 P rank loc1 grd pkg nr ranges cret INT MAX arret g0 g1 gr scpkg mret agret =
+  Some (if gr =? 0
+        then (1, comm, 1, comm,  1, pkg, P, rank, io1, io2, nr, ranges,  1, 2, u32 INT, u32 MAX, comm,
+              0, 0, 0, 0, 0, 0, 0, 0, 0, 0, 0,
+              peer_count procs rank, cret, g0, g1, grd, cret)
+        else (1, comm, 1, comm,  1, pkg, P, rank, io1, io2, nr, ranges,  1, 2, u32 INT, u32 MAX, comm,
+              1, scpkg, 2 * g1 * P * 4,
+              1, ranges, 2 * g1, u32 INT, mret, 2 * g1, u32 INT, comm,
+              peer_count procs rank, cret, g0, g1, mret, cret)).
+Proof. exact gen_adaptive_body. Qed.
+Print Assumptions C15_gen_adaptive_body.
+
+(* the WHOLE body of sc_ranges_statistics hands the model's `empties` to sc_stats_set1 and calls sc_stats_compute (mpicomm, 1, ..) *)
+Theorem C15_gen_statistics_body : forall rs procs rank comm j0 (B fuel : nat), Forall (fun g => ok_pair g /\ glen g <= Z.of_nat B) rs ->
+  Z.of_nat (length rs) <= RB -> Z.of_nat (length rs) * Z.of_nat B <= RB -> (length rs + B + 1 < fuel)%nat ->
+  statistics_body fuel (mem_of rs) (proc procs) j0 (Z.of_nat (length rs)) rank comm = Some (1, empties procs rank rs, 0, 1, comm, 1).
+Proof. exact gen_statistics_body. Qed.
+Print Assumptions C15_gen_statistics_body.
+
+(* the generated loops run on concrete arrays *)
+Example C15_ex_gen_loops :
+  compute_evict_scan 10 (mem_of [(1, 1); (3, 5); (7, 7)]) 2 14 3 0 = Some (2, 0, 1)
+  /\ compute_claim_scan 10 (mem_of [(1, 1); (3, 5); (-1, -2); (-1, -2)]) 4 8 13 0 = Some (2, 12)
+  /\ statistics_body 20 (mem_of [(1, 5); (9, 9); (-1, -2)]) (proc [0; 1; 7; 0; 1; -1; 0; 0; 0; 2]) 0 3 4 77 = Some (1, 1, 0, 1, 77, 1)
+  /\ adaptive_body_loop1 20 (proc [0; 1; 7; 0; 1; -1; 0; 0; 0; 2]) 10 4 0 0 = Some (inl (10, 3)).
+Proof. vm_compute. repeat split. Qed.
